@@ -732,7 +732,7 @@ def run_harness(harness, tier="quick", seed=0, replay=None, verbose=True):
     # phase 0: sliced obligations are first tried with the assumptions one hop away from the goal
     # only (dropping assumptions is sound for `unsat`); what this discharges skips the full query
     pre_discharged = {}
-    if getattr(harness, "HOP_SLICE", True):
+    if getattr(harness, "HOP_SLICE", False):
         b0 = smt.Batch(pid + "-hop")
         idx0 = []
         for r in runs:
@@ -940,7 +940,9 @@ def run_harness(harness, tier="quick", seed=0, replay=None, verbose=True):
             unreproduced.append((o, info))
 
     # ---- translator validation ----------------------------------------------------------------
+    t_tv0 = time.time()
     tv = translator_validation(harness, runs, seed, n=getattr(harness, "TV_SAMPLES", {}).get(tier, 3), log=log)
+    log(f"[{pid}] timing: explore {t_explore:.0f}s, solve {t_solve:.0f}s, translator validation {time.time() - t_tv0:.0f}s, since start {time.time() - t_start:.0f}s")
     if tv["mismatches"]:
         problems.append(f"translator validation mismatches: {tv['mismatches'][:3]}")
     # a concrete failure of a claim that the solver discharged = model/real-code disagreement
